@@ -339,6 +339,73 @@ pub fn random_pipeline(ctx: &Ctx, rng: &mut Rng, n: usize) -> Vec<Vec<Vec<u8>>> 
     fs
 }
 
+/// Pipelines made for the connection handler's GET/SET FAST PATH and BATCH COLLECTORS (live for
+/// well-formed frames since fix de38a13): runs of plain `GET k` / `SET k v` frames (upper / lower /
+/// mixed case names) whose lengths sit just below / at / just above `batch_threshold`, long runs (more
+/// than 20, 32, 64 frames: one `fast_batch_*_pipeline` call with many items per shard), the SAME key
+/// several times inside one run (distinct values: the last write must win, every GET in between must
+/// see the write before it), runs interrupted by one generic command on the same key, and frames the
+/// recognisers must leave to the generic parser (SET with an option, a key that is another type).
+/// `shape` fixes the plan (corpus), else it is drawn.
+pub fn fast_pipeline(rng: &mut Rng, threshold: usize, shape: Option<usize>) -> Vec<Vec<Vec<u8>>> {
+    let w = |s: &str| -> Vec<Vec<u8>> { s.split(' ').map(|x| x.as_bytes().to_vec()).collect() };
+    let mut fs: Vec<Vec<Vec<u8>>> = Vec::new();
+    let mut serial = 0u64;
+    let shape = shape.unwrap_or_else(|| rng.below(6) as usize);
+    // a value of every type first (a GET through the fast path on a list must answer like the generic GET)
+    if shape % 2 == 0 {
+        fs.extend([w("SET a 10"), w("RPUSH b 3 1 2"), w("SADD c m n"), w("HSET kk f 5"), w("ZADD é 1 a 2 b")]);
+    }
+    let runs = match shape {
+        0 | 1 => 1,
+        _ => rng.range(2, 6),
+    };
+    for r in 0..runs {
+        let len = match (shape, r) {
+            // ONE long run at the head of the read: > 20 / > 32 / > 64 items in one batch
+            (0, _) => *rng.pick(&[21usize, 24, 33, 48]),
+            (1, _) => *rng.pick(&[22usize, 40, 65, 90]),
+            _ => *rng.pick(&[threshold.saturating_sub(1).max(1), threshold, threshold + 1, 1, 2, 5, 23]),
+        };
+        let kind = if shape <= 1 { shape } else { rng.below(3) as usize }; // 0 = SETs, 1 = GETs after SETs, 2 = mixed
+        let nk = rng.range(1, 5) as usize;
+        let mut ks: Vec<&str> = KEYS.to_vec();
+        rng.shuffle(&mut ks);
+        ks.truncate(nk.max(if shape <= 1 { 3 } else { 1 }));
+        for i in 0..len {
+            let k = ks[rng.below(ks.len() as u64) as usize];
+            let name_set = *rng.pick(&["SET", "SET", "SET", "set", "Set"]);
+            let name_get = *rng.pick(&["GET", "GET", "GET", "get", "gEt"]);
+            let set = match kind {
+                0 => true,
+                1 => i < len / 2 || i % 5 == 0,
+                _ => rng.chance(1, 2),
+            };
+            if set {
+                serial += 1;
+                fs.push(vec![name_set.as_bytes().to_vec(), k.as_bytes().to_vec(), format!("w{}", serial).into_bytes()]);
+            } else {
+                fs.push(vec![name_get.as_bytes().to_vec(), k.as_bytes().to_vec()]);
+            }
+        }
+        // between the runs: one frame only the generic path can carry, on a key of the run
+        let k = ks[0];
+        fs.push(match rng.below(6) {
+            0 => w(&format!("APPEND {} +", k)),
+            1 => w(&format!("STRLEN {}", k)),
+            2 => w(&format!("SET {} nx{} NX", k, serial)),
+            3 => w(&format!("GETDEL {}", k)),
+            4 => w(&format!("SETNX {} snx{}", k, serial)),
+            _ => w(&format!("EXISTS {}", k)),
+        });
+    }
+    // the final values, read back frame by frame
+    for k in KEYS {
+        fs.push(w(&format!("GET {}", k)));
+    }
+    fs
+}
+
 /// every time-free template once, in order, as ONE pipeline
 pub fn corpus_pipeline(ctx: &Ctx, n: usize) -> Vec<Vec<Vec<u8>>> {
     let mut rng = Rng::new(0x5EC);
@@ -413,10 +480,61 @@ async fn conn_on(n: usize, frames: &[Vec<Vec<u8>>], segs: &[Vec<u8>], takes: &[u
 }
 
 pub async fn run_conn(out: &mut Out, pend: &mut Vec<Pending>, ctx: &Ctx, rng: &mut Rng, n: usize, frames: &[Vec<Vec<u8>>]) {
+    let cfg = ConnCfg { min_pipeline: *rng.pick(&[1usize, 16, 60, 200]), batch_threshold: *rng.pick(&[1usize, 2, 3, 8]), read_size: *rng.pick(&[16usize, 64, 8192]) };
+    run_conn_with(out, pend, ctx, rng, n, frames, cfg, "srvc").await
+}
+
+/// a fast-path / batch pipeline (`fast_pipeline`) under a drawn batching configuration; two thirds of the
+/// time the whole pipeline arrives in ONE read (read_size 8192), so that a long run IS one batch
+pub async fn run_conn_fast(out: &mut Out, pend: &mut Vec<Pending>, ctx: &Ctx, rng: &mut Rng, n: usize, shape: Option<usize>) {
+    let whole = rng.chance(2, 3);
+    let cfg = ConnCfg {
+        min_pipeline: *rng.pick(&[1usize, 16, 60, 60, 200]),
+        batch_threshold: *rng.pick(&[1usize, 2, 2, 3, 8]),
+        read_size: if whole { 8192 } else { *rng.pick(&[64usize, 256, 8192]) },
+    };
+    let frames = fast_pipeline(rng, cfg.batch_threshold, shape);
+    run_conn_with(out, pend, ctx, rng, n, &frames, cfg, if whole { "srvc-fast-whole" } else { "srvc-fast" }).await
+}
+
+pub async fn run_conn_with(out: &mut Out, pend: &mut Vec<Pending>, ctx: &Ctx, rng: &mut Rng, n: usize, frames: &[Vec<Vec<u8>>], cfg: ConnCfg, mode: &str) {
     let universe: Vec<String> = KEYS.iter().map(|k| k.to_string()).collect();
     let stream: Vec<u8> = frames.iter().flat_map(|f| resp_bytes(f).to_vec()).collect();
     // read segmentation: cut points anywhere (inside frames, inside CR LF), 0..8 cuts, or byte by byte
-    let segs: Vec<Vec<u8>> = if rng.chance(1, 10) && stream.len() < 400 {
+    let segs: Vec<Vec<u8>> = if mode == "srvc-fast-whole" {
+        // the batch collectors look at the HEAD of what one read delivered: every maximal run of plain GET /
+        // plain SET frames arrives at the head of a read of its own (two thirds of the time), or everything
+        // in one segment, or cut once somewhere (the second read starts inside a run)
+        match rng.below(6) {
+            0 => {
+                let c = rng.below(stream.len() as u64 + 1) as usize;
+                vec![stream[..c].to_vec(), stream[c..].to_vec()].into_iter().filter(|s| !s.is_empty()).collect()
+            }
+            1 => vec![stream.clone()],
+            _ => {
+                let plain = |f: &Vec<Vec<u8>>| -> u8 {
+                    if f.len() == 2 && f[0].eq_ignore_ascii_case(b"GET") { 1 } else if f.len() == 3 && f[0].eq_ignore_ascii_case(b"SET") { 2 } else { 0 }
+                };
+                let mut v: Vec<Vec<u8>> = Vec::new();
+                let mut cur: Vec<u8> = Vec::new();
+                let mut prev = 0u8;
+                for f in frames {
+                    let p = plain(f);
+                    // a run starts: what came before is a read of its own (a SET run right after a GET run stays
+                    // in the same read: the SET collector runs after the GET collector)
+                    if p != 0 && prev == 0 && !cur.is_empty() {
+                        v.push(std::mem::take(&mut cur));
+                    }
+                    cur.extend_from_slice(&resp_bytes(f));
+                    prev = p;
+                }
+                if !cur.is_empty() {
+                    v.push(cur);
+                }
+                v
+            }
+        }
+    } else if rng.chance(1, 10) && stream.len() < 400 {
         stream.iter().map(|b| vec![*b]).collect()
     } else {
         let mut cuts: Vec<usize> = (0..rng.below(9)).map(|_| rng.below(stream.len() as u64 + 1) as usize).collect();
@@ -434,7 +552,6 @@ pub async fn run_conn(out: &mut Out, pend: &mut Vec<Pending>, ctx: &Ctx, rng: &m
         v
     };
     let takes: Vec<usize> = (0..rng.below(12)).map(|_| *rng.pick(&[1usize, 1, 2, 3, 7, 64, 1000])).collect();
-    let cfg = ConnCfg { min_pipeline: *rng.pick(&[1usize, 16, 60, 200]), batch_threshold: *rng.pick(&[1usize, 2, 3, 8]), read_size: *rng.pick(&[16usize, 64, 8192]) };
     let start = out.n_ops();
     let (w1, d1) = conn_on(1, frames, &segs, &takes, &cfg, &universe).await;
     let (wn, dn) = conn_on(n, frames, &segs, &takes, &cfg, &universe).await;
@@ -456,6 +573,42 @@ pub async fn run_conn(out: &mut Out, pend: &mut Vec<Pending>, ctx: &Ctx, rng: &m
         out.op(format!("M7DUMP {}", BASE_MS), d.clone());
     }
     out.count("class:srvc");
+    if mode != "srvc" {
+        out.count(&format!("class:{}", mode));
+    }
+    // what the pipeline offers the recognisers: maximal runs of plain GET / plain SET frames
+    {
+        let plain = |f: &Vec<Vec<u8>>| -> u8 {
+            if f.len() == 2 && f[0].eq_ignore_ascii_case(b"GET") { 1 } else if f.len() == 3 && f[0].eq_ignore_ascii_case(b"SET") { 2 } else { 0 }
+        };
+        let mut i = 0;
+        while i < frames.len() {
+            let p = plain(&frames[i]);
+            let mut j = i;
+            while j < frames.len() && plain(&frames[j]) == p {
+                j += 1;
+            }
+            if p != 0 {
+                let len = j - i;
+                let name = if p == 1 { "GET" } else { "SET" };
+                let rel = if len < cfg.batch_threshold { "below-threshold" } else if len == cfg.batch_threshold { "at-threshold" } else { "above-threshold" };
+                out.count(&format!("srvc:plain-{}-run:{}", name, rel));
+                if len > 20 {
+                    out.count(&format!("srvc:plain-{}-run:longer-than-20", name));
+                }
+                let mut seen = std::collections::BTreeSet::new();
+                if frames[i..j].iter().any(|f| !seen.insert(f[1].clone())) {
+                    out.count(&format!("srvc:plain-{}-run:key-repeated", name));
+                }
+                let shards: std::collections::BTreeSet<usize> = frames[i..j].iter().map(|f| ctx.gen(&f[1], n)).collect();
+                if shards.len() >= 2 {
+                    out.count(&format!("srvc:plain-{}-run:spans-shards", name));
+                }
+            }
+            i = j;
+        }
+        out.count(if stream.len() >= cfg.min_pipeline { "srvc:stream>=min_pipeline_buffer" } else { "srvc:stream<min_pipeline_buffer" });
+    }
     out.count(&format!("srvc:segments:{}", if segs.len() > 20 { "byte-by-byte".to_string() } else { segs.len().to_string() }));
     out.count(&format!("srvc:partial-writes:{}", takes.len().min(3)));
     out.count(&format!("srvc:min_pipeline={}", cfg.min_pipeline));
@@ -468,7 +621,7 @@ pub async fn run_conn(out: &mut Out, pend: &mut Vec<Pending>, ctx: &Ctx, rng: &m
         None
     };
     pend.push(Pending::new(start, out.n_ops(), "srvc", None, diverged, n));
-    out.case(&format!("srvc|{}|{}|{:?}|{:?}", n, l, segs.len(), takes), frames.len() >= 3 && segs.len() >= 2);
+    out.case(&format!("srvc|{}|{}|{:?}|{:?}", n, l, segs.len(), takes), frames.len() >= 3 && (segs.len() >= 2 || mode != "srvc"));
     out.sample(json!({"shards": n, "class": "srvc", "frames": frames.len(), "segments": segs.len(), "partial_write_sizes": takes, "min_pipeline": cfg.min_pipeline, "batch_threshold": cfg.batch_threshold, "read_size": cfg.read_size}));
 }
 
